@@ -184,3 +184,104 @@ def observe(case):
     if "classes" in want:
         res["classes"] = sorted(classes)
     return res
+
+
+# --------------------------------------------------------------------------- generic parse jobs
+def leaves_of(tree):
+    """Leaves in walk order: ('c'|'d', text) comment/directive, ('p', text) preprocessor node,
+    ('s', printed statement) anything else that came from a reader item."""
+    out = []
+    for n in leaf_statements(tree):
+        cn = type(n).__name__
+        if cn == "Comment":
+            if str(n).strip() == "":
+                continue
+            out.append(("c", str(n)))
+        elif cn == "Directive":
+            out.append(("d", str(n)))
+        elif cn.startswith("Cpp_"):
+            out.append(("p", str(n)))
+        else:
+            t = n.tofortran() if hasattr(n, "tofortran") else str(n)
+            out.append(("s", " ".join(t.split())))
+    return out
+
+
+def strip_nodes(tree, pred):
+    """Remove (in place) the children of block nodes for which pred(node) holds."""
+    for n in all_nodes(tree):
+        if isinstance(n, BlockBase):
+            n.content[:] = [c for c in n.content if not (isinstance(c, Base) and pred(c))]
+    # containers that only existed to hold the removed nodes (e.g. Specification_Part(Implicit_Part(#line)))
+    changed = True
+    while changed:
+        changed = False
+        for n in all_nodes(tree):
+            if isinstance(n, BlockBase):
+                keep = [c for c in n.content if not (isinstance(c, BlockBase) and not c.content)]
+                if len(keep) != len(n.content):
+                    n.content[:] = keep
+                    changed = True
+    return tree
+
+
+def run_jobs(case):
+    """case: id, jobs [ {name, src, std, ic, pd, omp, want, files, reader, dirs} ] -> {name: result}"""
+    import os, shutil, tempfile
+    res = {"id": case["id"], "jobs": {}}
+    for job in case["jobs"]:
+        want = set(job.get("want", ()))
+        tmp = None
+        try:
+            kw = dict(ignore_comments=job.get("ic", True), process_directives=job.get("pd", False))
+            if job.get("omp"):
+                kw["include_omp_conditional_lines"] = True
+            src = job["src"]
+            if job.get("files") is not None:
+                tmp = tempfile.mkdtemp(prefix="inc", dir=os.path.join(common.WORK, "tmp"))
+                dirs = []
+                for dname, files in job["files"].items():
+                    dd = os.path.join(tmp, dname)
+                    os.makedirs(dd, exist_ok=True)
+                    for fn, txt in files.items():
+                        with open(os.path.join(dd, fn), "w") as f:
+                            f.write(txt)
+                for dname in job.get("dirs", list(job["files"].keys())):
+                    dirs.append(os.path.join(tmp, dname))
+                kw["include_dirs"] = dirs
+            P = fp.create(job["std"])
+            try:
+                if job.get("reader") == "file":
+                    path = os.path.join(tmp, "main.f90")
+                    with open(path, "w") as f:
+                        f.write(src)
+                    rd = fp.FortranFileReader(path, **kw)
+                else:
+                    rd = fp.FortranStringReader(src, **kw)
+                o, t = fp.parse(P, rd)
+            except BaseException as e:  # noqa: BLE001
+                if isinstance(e, KeyboardInterrupt):
+                    raise
+                o, t = fp.outcome_of_exception(e), None
+            r = {"o": o, "src": h(src)}
+            if "scope" in want:
+                r["scope"] = fp.scope()
+                r["tables"] = fp.table_names()
+            if t is not None:
+                r["st"] = h(fp.struct(t))
+                r["sci"] = h(fp.struct(t, ci=True))
+                s1 = fp.text(t)
+                r["text"] = h(s1)
+                r["tci"] = h(tci(s1))
+                if "textfull" in want:
+                    r["textfull"] = s1
+                if "leaves" in want:
+                    r["leaves"] = leaves_of(t)
+                if "stripcpp" in want:
+                    strip_nodes(t, lambda c: type(c).__name__.startswith("Cpp_"))
+                    r["st_nocpp"] = h(fp.struct(t))
+            res["jobs"][job["name"]] = r
+        finally:
+            if tmp:
+                shutil.rmtree(tmp, ignore_errors=True)
+    return res
